@@ -111,6 +111,25 @@ func LoadNormalized(cfg Config) (*Program, error) {
 			return p, nil
 		}
 		q.Cfg.normalized = true
+		// position map: rounds so far, plus this one
+		q.spans = map[string][][]span{}
+		for f, rs := range p.spans {
+			q.spans[f] = append([][]span(nil), rs...)
+		}
+		for f, sp := range p.roundSpans {
+			q.spans[f] = append(q.spans[f], sp)
+		}
+		q.origSrc = p.origSrc
+		if q.origSrc == nil {
+			q.origSrc = map[string][]byte{}
+		}
+		for f := range p.roundSpans {
+			if _, have := q.origSrc[f]; !have {
+				if b, err := p.readSource(f); err == nil {
+					q.origSrc[f] = b
+				}
+			}
+		}
 		p, cfg = q, cfg2
 	}
 	p.NormNotes = notes
@@ -174,7 +193,12 @@ func (p *Program) inlineNewHelpers(notes *[]string) (map[string][]byte, int, err
 				continue
 			}
 			total += len(in.edits)
-			out[fname] = in.apply()
+			text, spans := in.apply()
+			out[fname] = text
+			if p.roundSpans == nil {
+				p.roundSpans = map[string][]span{}
+			}
+			p.roundSpans[fname] = spans
 		}
 	}
 	return out, total, nil
@@ -191,33 +215,50 @@ func (in *inliner) off(pos token.Pos) int { return in.tf.Offset(pos) }
 
 func (in *inliner) text(n ast.Node) string { return string(in.src[in.off(n.Pos()):in.off(n.End())]) }
 
-func (in *inliner) apply() []byte {
+func (in *inliner) apply() ([]byte, []span) {
+	if len(in.imports) > 0 {
+		// the import specs go right after the package clause (always in front of every other edit)
+		at := in.off(in.file.Name.End())
+		text := ""
+		for _, sp := range in.imports {
+			text += "\nimport " + sp
+		}
+		in.edits = append(in.edits, textEdit{at, at, text})
+	}
 	sort.SliceStable(in.edits, func(i, j int) bool { return in.edits[i].start < in.edits[j].start })
 	var buf bytes.Buffer
+	var spans []span
 	last := 0
 	for _, e := range in.edits {
 		if e.start < last {
 			continue // overlapping: the inner one waits for the next round
 		}
 		buf.Write(in.src[last:e.start])
+		spans = append(spans, span{newStart: buf.Len(), newEnd: buf.Len() + len(e.text), oldStart: e.start, oldEnd: e.end})
 		buf.WriteString(e.text)
 		last = e.end
 	}
 	buf.Write(in.src[last:])
-	res := buf.Bytes()
-	if len(in.imports) > 0 {
-		// add the import specs right after the package clause
-		at := in.off(in.file.Name.End())
-		// the edits above shift offsets only after the package clause when at < first edit, which always holds
-		var b2 bytes.Buffer
-		b2.Write(res[:at])
-		for _, sp := range in.imports {
-			b2.WriteString("\nimport " + sp)
+	return buf.Bytes(), spans
+}
+
+// span records one replacement: bytes [oldStart, oldEnd) of the text before the round became [newStart, newEnd) after it.
+type span struct{ newStart, newEnd, oldStart, oldEnd int }
+
+// mapBack translates an offset in the text after a round into the text before it; offsets inside inserted text map to the
+// start of what was replaced (the call statement).
+func mapBack(spans []span, off int) int {
+	delta := 0
+	for _, sp := range spans {
+		if off < sp.newStart {
+			break
 		}
-		b2.Write(res[at:])
-		res = b2.Bytes()
+		if off < sp.newEnd {
+			return sp.oldStart
+		}
+		delta = sp.oldEnd - sp.newEnd
 	}
-	return res
+	return off + delta
 }
 
 // callee returns the new helper called by call, if the call is static.
@@ -1024,4 +1065,29 @@ func (in *inliner) evaluatedFirst(root ast.Expr, call *ast.CallExpr) bool {
 			return false
 		}
 	}
+}
+
+// origPosition maps a position in a helper-inlined file back to line:column of the file as it is in the repository.
+func (p *Program) origPosition(filename string, offset int) (line, col int, ok bool) {
+	rounds, has := p.spans[filename]
+	if !has {
+		return 0, 0, false
+	}
+	for r := len(rounds) - 1; r >= 0; r-- {
+		offset = mapBack(rounds[r], offset)
+	}
+	src := p.origSrc[filename]
+	if offset < 0 || offset > len(src) {
+		return 0, 0, false
+	}
+	line, col = 1, 1
+	for _, c := range src[:offset] {
+		if c == '\n' {
+			line++
+			col = 1
+		} else {
+			col++
+		}
+	}
+	return line, col, true
 }
